@@ -196,6 +196,16 @@ def make_plan(prop, seed):
         mix = r.choice(["builtin", "builtin", "both"])
         adv["p_instr"] = 0.1
 
+    if prop not in ("C01", "C15", "C20") and "valid_dispatch_states" not in spec["dispatcher"] and r.random() < 0.15:
+        # any activity name is a legal entry: the dispatcher may then try to send vehicles that are charging, queueing, parked,
+        # already on their way, carrying passengers or out of service (what happens to such an instruction is what is checked)
+        spec["dispatcher"]["valid_dispatch_states"] = r.choice([
+            ["idle", "repositioning", "servicingtrip", "dispatchtrip"],
+            ["idle", "chargingstation", "chargequeueing", "reservebase", "chargingbase", "dispatchstation", "dispatchbase"],
+            ["idle", "repositioning", "outofservice", "servicingtrip"],
+            ["idle", "repositioning", "reservebase", "chargingbase"],
+            ["repositioning"],
+        ])
     if prop in ("C02", "C07", "C08", "C10", "C16") and r.random() < 0.4:
         rs["p_add_request"] = 0.1   # a co-simulation user also inserts requests through the API (state-based oracles only)
     if mix == "adv":
